@@ -174,7 +174,7 @@ class Interp(StmtMixin):
             return FALSE
         if is_ref(v.ty):
             cls = v.ty[1]
-            if cls in ("deque", "list_str", "list_ref"):
+            if cls == "deque" or cls.startswith("list_"):
                 if st is None:
                     raise Unsupported("truthiness of container ref needs heap")
                 return z3.Length(self.read_field(st, v, cls, "items").t) > 0
@@ -195,7 +195,7 @@ class Interp(StmtMixin):
         """Sequence content of a list-like value (value sequence or heap container ref)."""
         if isinstance(v.ty, tuple) and v.ty[0] == "seq":
             return v
-        if is_ref(v.ty) and v.ty[1] in ("deque", "list_str", "list_ref"):
+        if is_ref(v.ty) and (v.ty[1] == "deque" or v.ty[1].startswith("list_")):
             return self.read_field(st, v, v.ty[1], "items")
         if v.ty == "pylist":
             if not v.py:
@@ -236,7 +236,7 @@ class Interp(StmtMixin):
                 return a.t == b.t          # identity in specifications
             if ca == cb == "PDDLType":      # PDDLType.__eq__ compares names (inlined; see class model)
                 return self.read_field(st, a, ca, "name").t == self.read_field(st, b, cb, "name").t
-            if ca in ("deque", "list_str", "list_ref") and cb == ca:
+            if (ca == "deque" or ca.startswith("list_")) and cb == ca:
                 return self.seq_of(st, a).t == self.seq_of(st, b).t
             raise Unsupported(f"== on refs {ca},{cb}")
         if a.ty == b.ty:
@@ -711,7 +711,7 @@ class Interp(StmtMixin):
                 vty = ("ref", self.c.get("dict_values", {}).get(cls, "opaque")) if vty == "int" else vty
                 yield s_yes, Val(z3.Select(mp.t, key.t), vty)
             return
-        if (isinstance(base.ty, tuple) and base.ty[0] == "seq") or (is_ref(base.ty) and base.ty[1] in ("deque", "list_str", "list_ref")):
+        if (isinstance(base.ty, tuple) and base.ty[0] == "seq") or (is_ref(base.ty) and (base.ty[1] == "deque" or base.ty[1].startswith("list_"))):
             s = self.seq_of(st, base)
             n = z3.Length(s.t)
             i = idx.t
